@@ -139,6 +139,37 @@ where
     | [] => []
     | a :: rest => rename old new a :: renameList old new rest
 
+/-- does the formula contain a step function?  SBML mathematics has none: the exporter writes `Heaviside(x)` as a
+call of a function named Heaviside, which the document does not define. -/
+def hasStep {α : Type} : Expr α → Bool
+  | .num _ => false
+  | .ident _ => false
+  | .add a b => hasStep a || hasStep b
+  | .sub a b => hasStep a || hasStep b
+  | .mul a b => hasStep a || hasStep b
+  | .div a b => hasStep a || hasStep b
+  | .pow a b => hasStep a || hasStep b
+  | .neg a => hasStep a
+  | .exp a => hasStep a
+  | .log a => hasStep a
+  | .abs a => hasStep a
+  | .step _ => true
+  | .max args => hasStepList args
+  | .min args => hasStepList args
+where
+  hasStepList {α : Type} : List (Expr α) → Bool
+    | [] => false
+    | a :: rest => hasStep a || hasStepList rest
+
+section
+variable {α : Type} [Zero α] [One α] [Add α] [Sub α] [Mul α] [Div α] [Neg α]
+  [LT α] [LE α] [DecidableLT α] [DecidableLE α] [Transc α]
+/-- an exported general law read as plain SBML mathematics over the document's identifiers: the written formula, except
+that a call of the undefined function Heaviside has no value. -/
+def docEval (env : Env α) (e : Expr α) : Option α :=
+  if hasStep e then none else Expr.eval env e
+end
+
 /-- local parameters of one reaction: a local whose id is already taken (by a global or an earlier local)
 is renamed `id_reactionId` in the kinetic law; every local ends up as a global of the model. -/
 def importLocals {α : Type} (rxnId : String) (taken : List String) (locals : List (String × α)) (law : Expr α) :
